@@ -288,6 +288,7 @@ def irregular_wellformed(rep, rng):
     X = fd.smooth_curves(rng, n, x) + 0.05 * rng.normal(size=(n, m))
     mask = rng.uniform(size=(n, m)) < 0.85
     mask[:, [0, -1]] = True
+    mask[0, [2, 5, 9]] = False                # the FIRST curve misses grid points the others have
     irr = fd.irregular([x[mask[k]] for k in range(n)], [X[k][mask[k]] for k in range(n)])
     d = fd.dense(np.linspace(-1, 1, 12), fd.smooth_curves(rng, n, np.linspace(-1, 1, 12)))
     rep.case(("irregular-wellformed", X.tobytes()), kind="irregular-component/well-formedness")
@@ -302,10 +303,14 @@ def irregular_wellformed(rep, rng):
                 sc = np.asarray(f.transform(None, method="PACE"), float)
                 rec = f.inverse_transform(sc)
             ok = ok and sc.shape == (n, 2) and np.all(np.isfinite(sc)) and rec.n_functional == 2 and rec.n_obs == n
+            union = np.unique(np.concatenate([x[mask[k]] for k in range(n)]))
+            rg = np.asarray(rec.data[1].argvals["input_dim_0"], float)
+            ok = ok and rg.shape == union.shape and np.array_equal(rg, union)
             if not ok:
                 rep.violation(f"MFPCA with an irregular component (method_smoothing={meth}): malformed result",
                               {"X": C.hexf(X), "mask": mask.astype(int).tolist()})
     except ModuleNotFoundError as e:
         rep.notes.append(f"irregular well-formedness skipped (environment): {e}")
     except Exception as e:  # noqa: BLE001
-        rep.notes.append(f"MFPCA with an irregular component raised {type(e).__name__}: {e}"[:200])
+        rep.violation(f"MFPCA with an irregular component (per-curve sampling points, first curve incomplete): fit / PACE scores / "
+                      f"inverse_transform raised {type(e).__name__}: {e}"[:300], {"X": C.hexf(X), "mask": mask.astype(int).tolist()})
